@@ -60,6 +60,15 @@ def gen_cases(rng, tier, info):
         cases.append(Case("wf-%d%s" % (j, "-cp%d" % sb if sb else ""), h.cmds))
     for name, h in G.scenario_histories(rng, raw=True):
         cases.append(Case("scn-" + name, h.cmds))
+    # strings of exactly 65,534 / 65,535 / 65,536 / 65,537 encoded bytes: one pool record up to 65,535, two from 65,536 on
+    for j, n in enumerate((65534, 65535, 65536, 65537)):
+        h = G.History(rng, j % 3, observe=None)
+        h.add_table("Big", [mk("K", "i16", pk=True), mk("V", ("str", 0), null=True)])
+        h.insert("Big", rows=[[1, "L" * n], [2, "after"]])
+        h.flush(); h.raw()
+        h.delete("Big", cond=("bin", "eq", ("col", "K"), ("lit", 1)))
+        h.flush(); h.raw(); h.reopen(); h.flush(); h.raw()
+        cases.append(Case("boundary-%d" % n, h.cmds))
     # packages WITHOUT a _Validation table (foreign files): dropping a table must still remove its _Tables / _Columns rows
     # and release their strings
     import msienc
